@@ -6,11 +6,19 @@ C06 — the result does not depend on the field-lookup strategy.
 `C06_df_eq_ff` : for every world, well-formed parser, `Options` and input with distinct keys, data-first and
 field-first parsing produce the same data (as a finite map) and handle the same set of errors — obtained from
 the two C05 refinements to the common `FieldContract`, not by a simultaneous induction over the two loops.
-`C06_same_outcome` : what the caller observes under the two strategies is the same: equal mapping and
-attribute views when both succeed; otherwise both raise (fail-fast: a `ParseError`, which one depends on the
-iteration order) or both collect (`collect_errors`, no `max_errors`: the same set of ⟨kind, item⟩).
-`C06_strategy_unobservable` : whatever `data_first_search` is set to (True, False, None = chosen by
-`assign_search_strategy`), the outcome is the same in that sense.
+`C06_same_outcome` : what the caller observes under the two strategies, for EVERY input: equal mapping and attribute
+views when both succeed; otherwise both fail, in the same way (both raise / both collect), and what they report are
+violations of the one contract — the same SET of violations underlies both runs; uncapped collecting reports exactly
+that set under both; fail-fast reports one member of it, `max_errors = k` at most `max k 1` members of it.
+WHICH member a fail-fast run raises (which `k` a capped run reports) is NOT the same in general: it is the first the
+strategy's own loop comes across (`C06_failfast_kind_differs_witness`: a required field missing + another field
+unconvertible → data-first raises the ParseError, field-first the AbsenceError).  A caller's `except AbsenceError` can
+therefore observe the strategy: known finding `failfast-first-error-order`, predicate `KnownDefect`.
+`C06_same_outcome_partial` : outside `KnownDefect` (every violation is reported, or there is only one) the outcome is
+the same in the strict sense — the same error raised, the same set collected.
+`C06_params_error_same` : a max_params / min_params violation is raised first by both.
+`C06_strategy_unobservable(_partial)` : whatever `data_first_search` is set to (True, False, None = chosen by
+`assign_search_strategy`), the outcome is the same in those senses.
 The `C06_legacy_*` witnesses refute all of this for the code before fixes/C06-1..5-*.patch.
 -/
 namespace Utv.C06
@@ -28,12 +36,46 @@ theorem C06_df_eq_ff [DecidableEq V] (W : World V) (LL : LowerLaws W) (P : Parse
   rw [fieldFirst_eq_ref LL wf o hnd]
   exact ⟨h1, h2⟩
 
-/-- "equal parsed data when both succeed, and a failure of the same kind otherwise" -/
-def SameOutcome (maxErrors : Option Nat) : Outcome V → Outcome V → Prop
+/-- "equal parsed data when both succeed, and a failure of the same kind otherwise" — the strict reading: the same
+error is raised, the same set of errors is collected.  This is what the property asks for; the code meets it outside
+`KnownDefect` only (`C06_same_outcome_partial`, `C06_failfast_kind_differs_witness`). -/
+def SameOutcomeStrict : Outcome V → Outcome V → Prop
   | .ok m a, .ok m' a' => MapEq m m' ∧ MapEq a a'
-  | .raised _, .raised _ => True
-  | .collected es, .collected es' => maxErrors = none → SetEq es es'
+  | .raised e, .raised e' => e = e'
+  | .collected es, .collected es' => SetEq es es'
   | _, _ => False
+
+/-- What holds for every input, `viol` being the violations of the contract (one set, whatever the strategy) and `cap`
+the `max_errors` in force:
+* both succeed, with equal mapping and attribute views; or
+* both raise, each one a member of `viol` — not necessarily the same member: each strategy raises the first violation
+  its own loop meets; or
+* both collect: without a cap, exactly `viol` (as a set) under both; under `max_errors = k`, a non-empty selection of at
+  most `max k 1` members of `viol` under both — again not necessarily the same selection. -/
+def SameOutcome (viol : List Err) (cap : Option Nat) : Outcome V → Outcome V → Prop
+  | .ok m a, .ok m' a' => MapEq m m' ∧ MapEq a a'
+  | .raised e, .raised e' => e ∈ viol ∧ e' ∈ viol
+  | .collected es, .collected es' =>
+    match cap with
+    | none => SetEq es viol ∧ SetEq es' viol
+    | some k => es ≠ [] ∧ es' ≠ [] ∧ es.length ≤ max k 1 ∧ es'.length ≤ max k 1
+                ∧ (∀ e ∈ es, e ∈ viol) ∧ (∀ e ∈ es', e ∈ viol)
+  | _, _ => False
+
+/-- all the violations are one and the same -/
+def OneViolation (l : List Err) : Prop := ∀ x ∈ l, ∀ y ∈ l, x = y
+
+instance (l : List Err) : Decidable (OneViolation l) := by unfold OneViolation; infer_instance
+
+/-- **Known finding `failfast-first-error-order`**: not every violation is reported (fail-fast, or collecting under
+`max_errors`) and the input has two different ones.  Which of them is reported depends on the order in which the
+strategy's loop meets them: data-first walks the input and only then looks for missing fields, field-first walks the
+declared fields. -/
+def KnownDefect [DecidableEq V] (W : World V) (P : Parser V) (o : Opts V) (data : List (Key × V)) : Prop :=
+  (o.collectErrors = false ∨ o.maxErrors.isSome = true) ∧ ¬ OneViolation (contract W P o data).errs
+
+instance [DecidableEq V] (W : World V) (P : Parser V) (o : Opts V) (data : List (Key × V)) :
+    Decidable (KnownDefect W P o data) := by unfold KnownDefect; infer_instance
 
 /-- `parse_data` is `parseWith` for the strategy it selects -/
 theorem parseData_eq_parseWith [DecidableEq V] (W : World V) (P : Parser V) (o : Opts V) (data : List (Key × V)) :
@@ -83,22 +125,30 @@ theorem views_congr {W : World V} (LL : LowerLaws W) {P : Parser V} (wf : WF W P
       · have hn' : ∀ kf ∈ P.fields, kf.2.attname ≠ k := fun kf hf e => hn ⟨kf, hf, e⟩
         rw [c2 k hk hn', d2 k hk hn']
 
-/-- **C06 at the level of what the caller observes.** -/
-theorem C06_same_outcome [DecidableEq V] (W : World V) (LL : LowerLaws W) (P : Parser V) (hwf : P.wf W = true)
+theorem take_subset {α : Type} (n : Nat) (l : List α) : ∀ e ∈ l.take n, e ∈ l := fun _ h => List.mem_of_mem_take h
+
+/-- the common part of the two theorems below -/
+theorem runs_related [DecidableEq V] (W : World V) (LL : LowerLaws W) (P : Parser V) (hwf : P.wf W = true)
     (o : Opts V) (data : List (Key × V)) (hnd : (data.map (·.1)).Nodup) (b₁ b₂ : Bool) :
-    SameOutcome o.maxErrors (runWith W P o data b₁) (runWith W P o data b₂) := by
-  have wf := WF.of_wf hwf
+    MapEq (parseWith W P o data b₁).result (parseWith W P o data b₂).result
+    ∧ SetEq (parseWith W P o data b₁).errs (contract W P o data).errs
+    ∧ SetEq (parseWith W P o data b₂).errs (contract W P o data).errs
+    ∧ ∀ b, ResultKeysOk W P (parseWith W P o data b).result := by
   obtain ⟨r1, e1⟩ := parseWith_refines W LL P hwf o data hnd b₁
   obtain ⟨r2, e2⟩ := parseWith_refines W LL P hwf o data hnd b₂
-  have hr : MapEq (parseWith W P o data b₁).result (parseWith W P o data b₂).result :=
-    fun k => (r1 k).trans (r2 k).symm
-  have he : SetEq (parseWith W P o data b₁).errs (parseWith W P o data b₂).errs :=
-    fun e => (e1 e).trans (e2 e).symm
-  have hok : ∀ b, ResultKeysOk W P (parseWith W P o data b).result := by
-    intro b k hk
-    apply contract_result_keys W P o data k
-    rw [← (parseWith_refines W LL P hwf o data hnd b).1 k]
-    intro hc; exact ((dget_eq_none_iff _ _).1 hc) hk
+  refine ⟨fun k => (r1 k).trans (r2 k).symm, e1, e2, ?_⟩
+  intro b k hk
+  apply contract_result_keys W P o data k
+  rw [← (parseWith_refines W LL P hwf o data hnd b).1 k]
+  intro hc; exact ((dget_eq_none_iff _ _).1 hc) hk
+
+/-- **C06 at the level of what the caller observes — for every input.** -/
+theorem C06_same_outcome [DecidableEq V] (W : World V) (LL : LowerLaws W) (P : Parser V) (hwf : P.wf W = true)
+    (o : Opts V) (data : List (Key × V)) (hnd : (data.map (·.1)).Nodup) (b₁ b₂ : Bool) :
+    SameOutcome (contract W P o data).errs o.maxErrors (runWith W P o data b₁) (runWith W P o data b₂) := by
+  have wf := WF.of_wf hwf
+  obtain ⟨hr, e1, e2, hok⟩ := runs_related W LL P hwf o data hnd b₁ b₂
+  have he : SetEq (parseWith W P o data b₁).errs (parseWith W P o data b₂).errs := fun e => (e1 e).trans (e2 e).symm
   unfold runWith finish
   cases h1 : (parseWith W P o data b₁).errs with
   | nil =>
@@ -109,25 +159,138 @@ theorem C06_same_outcome [DecidableEq V] (W : World V) (LL : LowerLaws W) (P : P
     cases h2 : (parseWith W P o data b₂).errs with
     | nil => exact absurd ((setEq_nil_iff he).2 h2) (by rw [h1]; simp)
     | cons y ys =>
+      rw [h1] at e1; rw [h2] at e2
       simp only
       cases o.collectErrors
-      · simp [SameOutcome]
+      · exact ⟨(e1 x).1 (by simp), (e2 y).1 (by simp)⟩
       · simp only [Bool.not_true, Bool.false_eq_true, if_false]
         cases hm : o.maxErrors with
-        | none => simp only [SameOutcome]; intro _; rw [← h1, ← h2]; exact he
-        | some n => simp [SameOutcome]
+        | none => exact ⟨e1, e2⟩
+        | some n =>
+          have hpos : 0 < max n 1 := by omega
+          refine ⟨?_, ?_, ?_, ?_, ?_, ?_⟩
+          · intro h; have := congrArg List.length h; simp [List.length_take] at this
+          · intro h; have := congrArg List.length h; simp [List.length_take] at this
+          · rw [List.length_take]; omega
+          · rw [List.length_take]; omega
+          · exact fun e h => (e1 e).1 (List.mem_of_mem_take h)
+          · exact fun e h => (e2 e).1 (List.mem_of_mem_take h)
+
+/-- **C06 in the strict reading, outside the known finding**: when every violation is reported (collecting without a
+cap) or the input has at most one, both strategies raise the SAME error / collect the SAME set. -/
+theorem C06_same_outcome_partial [DecidableEq V] (W : World V) (LL : LowerLaws W) (P : Parser V) (hwf : P.wf W = true)
+    (o : Opts V) (data : List (Key × V)) (hnd : (data.map (·.1)).Nodup) (b₁ b₂ : Bool)
+    (hk : ¬ KnownDefect W P o data) :
+    SameOutcomeStrict (runWith W P o data b₁) (runWith W P o data b₂) := by
+  have wf := WF.of_wf hwf
+  obtain ⟨hr, e1, e2, hok⟩ := runs_related W LL P hwf o data hnd b₁ b₂
+  have he : SetEq (parseWith W P o data b₁).errs (parseWith W P o data b₂).errs := fun e => (e1 e).trans (e2 e).symm
+  have hone : (o.collectErrors = false ∨ o.maxErrors.isSome = true) → OneViolation (contract W P o data).errs := by
+    intro h; exact Classical.byContradiction fun hn => hk ⟨h, hn⟩
+  unfold runWith finish
+  cases h1 : (parseWith W P o data b₁).errs with
+  | nil =>
+    have h2 : (parseWith W P o data b₂).errs = [] := (setEq_nil_iff he).1 h1
+    rw [h2]
+    exact views_congr LL wf o _ _ hr (parseWith_nodup W P o data b₁) (parseWith_nodup W P o data b₂) (hok b₁) (hok b₂)
+  | cons x xs =>
+    cases h2 : (parseWith W P o data b₂).errs with
+    | nil => exact absurd ((setEq_nil_iff he).2 h2) (by rw [h1]; simp)
+    | cons y ys =>
+      rw [h1] at e1; rw [h2] at e2
+      simp only
+      cases hc : o.collectErrors
+      · exact hone (Or.inl hc) x ((e1 x).1 (by simp)) y ((e2 y).1 (by simp))
+      · simp only [Bool.not_true, Bool.false_eq_true, if_false]
+        cases hm : o.maxErrors with
+        | none => exact fun e => (e1 e).trans (e2 e).symm
+        | some n =>
+          have h1v := hone (Or.inr (by rw [hm]; rfl))
+          have hpos : 0 < max n 1 := by omega
+          have hx : x ∈ (x :: xs).take (max n 1) := by
+            cases hmx : max n 1 with
+            | zero => omega
+            | succ m => simp [List.take_succ_cons]
+          have hy : y ∈ (y :: ys).take (max n 1) := by
+            cases hmx : max n 1 with
+            | zero => omega
+            | succ m => simp [List.take_succ_cons]
+          intro e
+          constructor
+          · intro h
+            have : e = y := h1v e ((e1 e).1 (List.mem_of_mem_take h)) y ((e2 y).1 (by simp))
+            rw [this]; exact hy
+          · intro h
+            have : e = x := h1v e ((e2 e).1 (List.mem_of_mem_take h)) x ((e1 x).1 (by simp))
+            rw [this]; exact hx
+
+/-- **A max_params / min_params violation is raised first, by both strategies**: the prologue is shared. -/
+theorem C06_params_error_same [DecidableEq V] (W : World V) (P : Parser V) (o : Opts V) (data : List (Key × V))
+    (e : Err) (es : List Err) (hp : paramsCheck o data.length = e :: es) (hc : o.collectErrors = false) (b : Bool) :
+    runWith W P o data b = .raised e := by
+  unfold runWith finish parseWith
+  simp only [hp, List.cons_append, hc]
+  rfl
 
 /-- **Whatever `data_first_search` says — True, False, or None (`assign_search_strategy` decides) — the
 outcome is that of either forced strategy.** -/
 theorem C06_strategy_unobservable [DecidableEq V] (W : World V) (LL : LowerLaws W) (P : Parser V)
     (hwf : P.wf W = true) (o : Opts V) (data : List (Key × V)) (hnd : (data.map (·.1)).Nodup) (b : Bool) :
-    SameOutcome o.maxErrors (finish {} W P o (parseData {} W P o data)) (runWith W P o data b) := by
+    SameOutcome (contract W P o data).errs o.maxErrors
+      (finish {} W P o (parseData {} W P o data)) (runWith W P o data b) := by
   rw [parseData_eq_parseWith]
   exact C06_same_outcome W LL P hwf o data hnd (useDataFirst P o) b
+
+theorem C06_strategy_unobservable_partial [DecidableEq V] (W : World V) (LL : LowerLaws W) (P : Parser V)
+    (hwf : P.wf W = true) (o : Opts V) (data : List (Key × V)) (hnd : (data.map (·.1)).Nodup) (b : Bool)
+    (hk : ¬ KnownDefect W P o data) :
+    SameOutcomeStrict (finish {} W P o (parseData {} W P o data)) (runWith W P o data b) := by
+  rw [parseData_eq_parseWith]
+  exact C06_same_outcome_partial W LL P hwf o data hnd (useDataFirst P o) b hk
+
+/-- **C06 from the declarations as written**: for any class of any sequence of class declarations whose names do not
+clash (`Parser.wfNames`; the rest of `wf` is derived, `C05_wf_of_no_name_clash`), under any runtime or class options. -/
+theorem C06_declared_same_outcome [DecidableEq V] (W : World V) (LL : LowerLaws W) (decls : List (ClassDecl V))
+    (B : Built V) (hB : B ∈ buildAll W decls) (hnames : B.parser.wfNames W = true)
+    (runtime : Option (Opts V)) (data : List (Key × V)) (hnd : (data.map (·.1)).Nodup) (b₁ b₂ : Bool) :
+    let o := (runtime.getD B.opts).normalise
+    SameOutcome (contract W B.parser o data).errs o.maxErrors
+      (runWith W B.parser o data b₁) (runWith W B.parser o data b₂)
+    ∧ (¬ KnownDefect W B.parser o data →
+        SameOutcomeStrict (runWith W B.parser o data b₁) (runWith W B.parser o data b₂)) := by
+  intro o
+  have hwf := C05_wf_of_no_name_clash W LL decls B hB hnames
+  exact ⟨C06_same_outcome W LL B.parser hwf o data hnd b₁ b₂,
+    C06_same_outcome_partial W LL B.parser hwf o data hnd b₁ b₂⟩
 
 /-! ### Non-vacuity, and the code before fixes/C06-1..5-*.patch -/
 
 def P₀ : Parser Nat := mkParser W₀ cA
+
+/-- `class K(Schema): a: int; b: int`, parsed from `{'b': <unconvertible>}`: two violations — `a` is missing, `b` does
+not convert.  Data-first meets `b` in the input first and raises its ParseError; field-first walks the fields, finds
+`a` missing and raises AbsenceError.  The same with `collect_errors=True, max_errors=1`. -/
+def cTwo : ClassDecl Nat := { fields := [{ attname := 0 }, { attname := 3 }], opts := {} }
+
+def raisedErr : Outcome Nat → Option Err | .raised e => some e | _ => none
+def collectedErrs : Outcome Nat → Option (List Err) | .collected es => some es | _ => none
+
+theorem C06_failfast_kind_differs_witness :
+    raisedErr (runWith W₀ (mkParser W₀ cTwo) {} [(3, 99)] true) = some (.parse 3)
+    ∧ raisedErr (runWith W₀ (mkParser W₀ cTwo) {} [(3, 99)] false) = some (.absence 0)
+    ∧ collectedErrs (runWith W₀ (mkParser W₀ cTwo) { collectErrors := true, maxErrors := some 1 } [(3, 99)] true)
+        = some [.parse 3]
+    ∧ collectedErrs (runWith W₀ (mkParser W₀ cTwo) { collectErrors := true, maxErrors := some 1 } [(3, 99)] false)
+        = some [.absence 0]
+    ∧ KnownDefect W₀ (mkParser W₀ cTwo) {} [(3, 99)] := by decide
+
+/-- the hypothesis of the partial theorem is satisfiable: one violation only; and without a cap both collect the two -/
+example : (mkParser W₀ cTwo).wf W₀ = true := by decide
+example : ¬ KnownDefect W₀ (mkParser W₀ cTwo) {} [(3, 1)] := by decide
+example : ¬ KnownDefect W₀ (mkParser W₀ cTwo) { collectErrors := true } [(3, 99)] := by decide
+example : collectedErrs (runWith W₀ (mkParser W₀ cTwo) { collectErrors := true } [(3, 99)] true) = some [.parse 3, .absence 0]
+    ∧ collectedErrs (runWith W₀ (mkParser W₀ cTwo) { collectErrors := true } [(3, 99)] false) = some [.absence 0, .parse 3] := by
+  decide
 
 example : P₀.wf W₀ = true := by decide
 
